@@ -23,6 +23,7 @@ func GetBuffer(w io.Writer) (b *Buffer, existing bool) {
 	}
 	b = bufferPool.Get().(*Buffer)
 	b.Reset(w)
+	verifPool("get", b)
 	return b, false
 }
 
@@ -33,6 +34,7 @@ func ReleaseBuffer(w io.Writer) (err error) {
 		return nil
 	}
 	err = b.Flush()
+	verifPool("put", b)
 	bufferPool.Put(b)
 	return err
 }
